@@ -69,7 +69,9 @@ func c17prop(ev *evid.Rec) func(rt *rapid.T) {
 				return m
 			}
 			// attempt connects from ip and checks the door against the model
-			attempt := func(ip, account string) {
+			// flow: "123" = name and icon in the login; "15" = 1.5 login, then agreed with a name; "15-nameless" = agreed
+			// without a name field (such a user is listed and announced like any other)
+			attempt := func(ip, account, flow string) {
 				port++
 				wantBanned := banned(ip)
 				before := userIDs()
@@ -79,6 +81,9 @@ func c17prop(ev *evid.Rec) func(rt *rapid.T) {
 				}
 				c := w.Connect(fmt.Sprintf("%s:%d", ip, port))
 				lo := hlsim.LoginOpts{Login: account, Password: "pw", Name: []byte("visitor"), Icon: 1}
+				if flow != "123" {
+					lo = hlsim.LoginOpts{Login: account, Password: "pw", Version: hlref.BE16(190)}
+				}
 				// handshake and login pipelined in one write: a banned peer's login must not be processed
 				c.SendParts([][]byte{hlref.Handshake(1, 2), hlref.Tran{Type: hlref.TranLogin, ID: 77, Fields: lo.Fields()}.Encode()})
 				settle(2 * time.Second)
@@ -126,6 +131,16 @@ func c17prop(ev *evid.Rec) func(rt *rapid.T) {
 				if _, ok := bans[ip]; ok {
 					nt = true // reconnect after expiry
 				}
+				switch flow {
+				case "15":
+					if !okReply(c.Agreed([]byte("visitor"), 1, 0, nil)) {
+						fail("agreed refused")
+					}
+				case "15-nameless":
+					if !okReply(c.Request(hlref.TranAgreed, fld(hlref.FUserIconID, hlref.BE16(1)), fld(hlref.FOptions, hlref.BE16(0)))) {
+						fail("agreed (without a name field) refused")
+					}
+				}
 				after := userIDs()
 				id := 0
 				for x := range after {
@@ -158,8 +173,9 @@ func c17prop(ev *evid.Rec) func(rt *rapid.T) {
 				"connect": func(rt *rapid.T) {
 					ip := rapid.SampledFrom(c17Addrs).Draw(rt, "ip")
 					acc := fmt.Sprintf("u%d", rapid.IntRange(0, 3).Draw(rt, "acct"))
-					rec("connect from %s as %s", ip, acc)
-					attempt(ip, acc)
+					flow := rapid.SampledFrom([]string{"123", "123", "15", "15-nameless"}).Draw(rt, "flow")
+					rec("connect from %s as %s (%s)", ip, acc, flow)
+					attempt(ip, acc, flow)
 				},
 				"kick": func(rt *rapid.T) {
 					if len(users) == 0 {
